@@ -8,12 +8,19 @@ that scales the correspondence tolerance; same construction as in the C01 driver
 request : `jac|fwd <Class> [params] [xs]`              (same parameter layout as the C01 driver)
           `jac|fwd Softmax [] [row;row;…]`   (`[k]` instead of `[]`: the array has k > 2 dimensions)
           `pd Softmax [] [row]`                          matrix of partial derivatives of one row
+          `hist <Class> [mininu,minilam,base] direct|via:<k>=<v>,… <op> <op> …`   one object and a history (Model/C02Hist):
+               ops `A:<name>=<v>` (t.name = v)  `I:<name>=<v>` (t[name] = v)  `V:[v,…]` (t.params.values = …)  `R` (reset)
+               `J:[xs]` / `F:[xs]` (jacobian / forward); reply `ok <step> <step> …`, one step per op after the
+               construction: `<done|values|rej:<err>>;[params];[consts];[inner BC params]|-;[returned values]`,
+               or `err <name>` when the constructor (or an assignment inside get_transform) rejects
+          `cast <kind> <ydt> [shape of y] [ys]`          dutils.cast on an argument of kind f64|f32|i64|float
 reply   : `ok [state] [values] [bounds]`  |  `err <name>`  |  `bad-op`
           (`state` = inner BoxCox2 `nu,lam` after the call for the delegating classes, `[]` otherwise)
           pd: `ok [matrix rows] [determinant by Laplace expansion] [jacRow]`
 -/
 import HydroVerif.Proto
 import HydroVerif.Model.C02
+import HydroVerif.Model.C02Hist
 open HydroVerif HydroVerif.C01
 
 /-- value and absolute error bound -/
@@ -190,8 +197,109 @@ def handleSoftmaxPd (rows : String) : String :=
       s!"ok {fmtMatF m} {fmtFloatList [C02.Softmax.pdDet row]} {fmtFloatList [j]}"
   | _ => "bad-op"
 
+/-! ### histories on one object (Model/C02Hist) -/
+def serrName : C02.SErr → String
+  | .nanValue => "nanValue" | .badLength => "badLength" | .unknownKey => "unknownKey"
+  | .minilamBelowM3 => "minilamBelowM3" | .maxsOutside => "maxsOutside" | .defaultsOutside => "defaultsOutside"
+  | .baseNotPositive => "baseNotPositive" | .call e => errName e | .malformed => "malformed"
+
+def clsOfName? : String → Option C02.Cls
+  | "Identity" => some .Identity | "Logit" => some .Logit | "Log" => some .Log | "BoxCox2" => some .BoxCox2
+  | "BoxCox1lam" => some .BoxCox1lam | "BoxCox1nu" => some .BoxCox1nu | "BoxCox2sym" => some .BoxCox2sym
+  | "YeoJohnson" => some .YeoJohnson | "LogSinh" => some .LogSinh | "Reciprocal" => some .Reciprocal
+  | "Sinh" => some .Sinh | "Manly" => some .Manly | _ => none
+
+/-- `name=value` -/
+def parseKV? (s : String) : Option (String × Option Float) :=
+  match s.splitOn "=" with
+  | [k, v] => (floatTok? v).map fun x => (k, optF x)
+  | _ => none
+
+def parseOp? (tok : String) : Option (C02.Op Float) :=
+  if tok == "R" then some .reset
+  else if tok.startsWith "A:" then (parseKV? (tok.drop 2).toString).map fun (k, v) => .setAttr k v
+  else if tok.startsWith "I:" then (parseKV? (tok.drop 2).toString).map fun (k, v) => .setItem k v
+  else if tok.startsWith "V:" then (parseFloatList? (tok.drop 2).toString).map fun vs => .setValues (vs.map optF)
+  else if tok.startsWith "J:" then (parseFloatList? (tok.drop 2).toString).map fun xs => .call true xs
+  else if tok.startsWith "F:" then (parseFloatList? (tok.drop 2).toString).map fun xs => .call false xs
+  else none
+
+def fmtVec (v : C02.Vec Float) : String := fmtVals v.vals
+
+def fmtStep (o : C02.Obj Float) (out : C02.Out Float) : String :=
+  let st := match out with
+    | .done => "done"
+    | .values _ => "values"
+    | .rejected e => "rej:" ++ serrName e
+  let ys := match out with
+    | .values ys => fmtVals ys
+    | _ => "[]"
+  let bc := match o.bc with
+    | some b => fmtVec b
+    | none => "-"
+  s!"{st};{fmtVec o.params};{fmtVec o.consts};{bc};{ys}"
+
+/-- states and outputs along a history -/
+def histSteps (o : C02.Obj Float) : List (C02.Op Float) → List String
+  | [] => []
+  | op :: rest =>
+    let r := C02.step o op
+    fmtStep r.1 r.2 :: histSteps r.1 rest
+
+def handleHist (cls ctor how : String) (opToks : List String) : String :=
+  match clsOfName? cls, parseFloatList? ctor, allSome (opToks.map parseOp?) with
+  | some cls, some [mininu, minilam, base], some ops =>
+    let c : C02.Ctor Float := ⟨mininu, minilam, optF base⟩
+    let built : Option (Except C02.SErr (C02.Obj Float)) :=
+      if how == "direct" then some (C02.mk cls c)
+      else if how.startsWith "via:" then
+        let body := (how.drop 4).toString
+        let kvs := if body == "" then some [] else allSome ((body.splitOn ",").map parseKV?)
+        kvs.map fun kw => C02.viaGet cls c kw
+      else none
+    match built with
+    | none => "bad-op"
+    | some (.error e) => "err " ++ serrName e
+    | some (.ok o) =>
+      -- the trace of the model must be what `run` / `trace` give (same functions the theorems are about)
+      let steps := histSteps o ops
+      let final := C02.run o ops
+      let outs := C02.trace o ops
+      if outs.length != ops.length then "err trace-length"
+      else s!"ok {fmtStep o .done} {" ".intercalate steps} final={fmtVec final.params}"
+  | _, _, _ => "bad-op"
+
+def dtOfName? : String → Option C02.Dt
+  | "f64" => some .f64 | "f32" => some .f32 | "i64" => some .i64 | _ => none
+
+def handleCast (kind ydt shape ys : String) : String :=
+  match dtOfName? ydt, parseNatList? shape, parseFloatList? ys with
+  | some ydt, some shape, some ys =>
+    let arg : Option (C02.Arg Float) :=
+      if kind == "float" then some (.pyFloat 0.0)
+      else (dtOfName? kind).map fun dt => .arr dt shape []
+    match arg with
+    | none => "bad-op"
+    | some arg =>
+      -- a float64 array argument goes through `publicOnArray` (cast after an elementwise function: here the identity)
+      let viaPublic : Except C02.CastErr (C02.Res Float) :=
+        match C02.publicOnArray (fun y : Float => some y) shape ys with
+        | .ok (.arr dt sh vs) => .ok (.arr dt sh (vs.map fun o => o.getD (0.0 / 0.0)))
+        | .ok (.pyFloat v) => .ok (.pyFloat (v.getD (0.0 / 0.0)))
+        | .error e => .error e
+      match (if kind == "f64" && ydt == .f64 then viaPublic else C02.cast arg ydt shape ys) with
+      | .error _ => "err typeError"
+      | .ok (.arr dt sh vs) =>
+        let dn := match dt with
+          | .f64 => "f64" | .f32 => "f32" | .i64 => "i64"
+        s!"ok arr {dn} {fmtNatList sh} {fmtFloatList vs}"
+      | .ok (.pyFloat v) => s!"ok float {fmtFloatList [v]}"
+  | _, _, _ => "bad-op"
+
 def handle (toks : List String) : String :=
   match toks with
+  | "hist" :: cls :: ctor :: how :: ops => handleHist cls ctor how ops
+  | ["cast", kind, ydt, shape, ys] => handleCast kind ydt shape ys
   | ["jac", "Softmax", nd, rows] => handleSoftmaxJac nd rows
   | ["pd", "Softmax", _, rows] => handleSoftmaxPd rows
   | ["fwd", "Softmax", nd, rows] => handleSoftmaxFwd nd rows
